@@ -1,6 +1,7 @@
 package checks
 
 import (
+	"bytes"
 	"encoding/hex"
 	"encoding/json"
 	"errors"
@@ -87,6 +88,35 @@ type SignCfg struct {
 	// was not ready yet) and answer every later batch correctly
 	FailingFirst []int
 	MaxStates    int
+	// Outsider: right after every proposal somebody who is not a participant posts reconstruction
+	// broadcasts for that batch with made-up signature values - once under a name nobody
+	// registered, once under participant 0's name with a signature that is not participant 0's
+	Outsider bool
+}
+
+var junkSig = bytes.Repeat([]byte{0x42}, 64)
+
+// isOutsiderJunk recognises the harness's own junk broadcasts (the oracle judges what the nodes
+// make of them, not the junk itself).
+func isOutsiderJunk(m storage.Message) bool {
+	return m.Event == "signature_reconstructed" && (m.SenderAddr == "mallory" || bytes.Equal(m.Signature, junkSig))
+}
+
+// outsiderJunk builds the two junk broadcasts for batch b of round.
+func outsiderJunk(round string, b Batch, victim string) []storage.Message {
+	ref, err := RefExpand(b.Tasks)
+	if err != nil {
+		return nil
+	}
+	var sigs []fsmtypes.ReconstructedSignature
+	for _, m := range ref {
+		sigs = append(sigs, fsmtypes.ReconstructedSignature{File: m.File, BatchID: b.ID, MessageID: m.ID, SrcPayload: m.Payload, Signature: bytes.Repeat([]byte{0x17}, 96), ValIdx: m.ValIdx})
+	}
+	data, _ := json.Marshal(sigs)
+	return []storage.Message{
+		{DkgRoundID: round, Event: "signature_reconstructed", Data: data, SenderAddr: "mallory"},
+		{DkgRoundID: round, Event: "signature_reconstructed", Data: data, SenderAddr: victim, Signature: junkSig},
+	}
 }
 
 func (c SignCfg) String() string {
@@ -100,6 +130,9 @@ func (c SignCfg) String() string {
 	}
 	if len(c.FailingFirst) > 0 {
 		extra += fmt.Sprintf(" failing-first-batch=%v", c.FailingFirst)
+	}
+	if c.Outsider {
+		extra += " outsider-junk"
 	}
 	if len(c.Failing) > 0 {
 		extra += fmt.Sprintf(" failing=%v", c.Failing)
@@ -227,6 +260,11 @@ func (sw *SignWorld) Model(cfg SignCfg, check func(k *worldx.Worker, s *worldx.S
 					}
 					m := k.W.ProposalMessage(p, sw.Round, b.ID, b.Tasks)
 					c := k.PostMsg(s, m, fmt.Sprintf("propose %s by %d", b.ID, p))
+					if cfg.Outsider {
+						for _, j := range outsiderJunk(sw.Round, b, k.W.Nodes[0].Name) {
+							c = k.PostMsg(c, j, "junk reconstruction broadcast by "+j.SenderAddr)
+						}
+					}
 					c, err := settle(k, c)
 					if err != nil {
 						return nil, err
@@ -411,7 +449,7 @@ func (o *sigOracle) CheckState(k *worldx.Worker, s *worldx.State) {
 	trace := func() interface{} { return s.Trace() }
 	for i := from; i < len(s.Log); i++ {
 		m := s.Log[i]
-		if m.Event != "signature_reconstructed" {
+		if m.Event != "signature_reconstructed" || isOutsiderJunk(m) {
 			continue
 		}
 		var sigs []fsmtypes.ReconstructedSignature
